@@ -8,6 +8,7 @@ Open Scope Z_scope.
 Definition cop_conn (o : cop) : bool := match o with OSetOut _ _ => false | _ => true end.
 Definition call_first (q : list citem) : Prop := forall i, In i q -> citem_first i = true.
 Definition call_nonfirst (q : list citem) : Prop := forall i, In i q -> citem_first i = false.
+Definition call_noreplay (q : list citem) : Prop := forall i, In i q -> citem_replay i = false.
 
 (* ---------- the no-SSetOut check on lists ---------- *)
 Lemma cnosetout_if c t e : cnosetout_s (SIf c t e) = cnosetout_l t && cnosetout_l e.
@@ -42,19 +43,19 @@ Lemma cwire_evs_snoc q i tr : cwire_evs (q ++ [i]) tr = EvWire i :: cwire_evs q 
 Proof. revert tr. induction q as [|x q IH]; intros tr; cbn; [reflexivity|]. apply IH. Qed.
 
 Lemma crstate_wires_out pre tr sn :
-  c02_rstate tr = Some (false, sn) -> exists sn', c02_rstate (cwire_evs pre tr) = Some (false, sn').
+  call_noreplay pre -> c02_rstate tr = Some (false, sn) -> exists sn', c02_rstate (cwire_evs pre tr) = Some (false, sn').
 Proof.
-  revert tr sn. induction pre as [|x pre IH]; intros tr sn H; cbn [cwire_evs]; [eauto|].
+  revert tr sn. induction pre as [|x pre IH]; intros tr sn Hnr H; cbn [cwire_evs]; [eauto|].
   assert (exists sn1, c02_rstate (EvWire x :: tr) = Some (false, sn1)) as [sn1 H1].
-  { cbn. rewrite H. destruct (citem_first x); cbn; eauto. }
-  eapply IH. exact H1.
+  { cbn. rewrite H. rewrite (Hnr x (or_introl eq_refl)). destruct (citem_first x); cbn; eauto. }
+  eapply IH; [|exact H1]. intros i Hi. apply Hnr. right. exact Hi.
 Qed.
 Lemma crstate_wires_nonfirst q tr sn :
   call_nonfirst q -> c02_rstate tr = Some (true, sn) -> exists sn', c02_rstate (cwire_evs q tr) = Some (true, sn').
 Proof.
   revert tr sn. induction q as [|x q IH]; intros tr sn Hq H; cbn [cwire_evs]; [eauto|].
   assert (c02_rstate (EvWire x :: tr) = Some (true, true)) as H1.
-  { cbn. rewrite H. rewrite (Hq x (or_introl eq_refl)). reflexivity. }
+  { cbn. rewrite H. rewrite (Hq x (or_introl eq_refl)). rewrite andb_false_r. reflexivity. }
   eapply IH; [|exact H1]. intros i Hi. apply Hq. right. exact Hi.
 Qed.
 Lemma crstate_wires_first q tr :
@@ -77,7 +78,7 @@ Proof.
   - eapply crstate_wires_nonfirst; eauto.
   - destruct Hq as [Hq|(q0 & i & -> & Hi & Hq0)].
     + exists false. apply crstate_wires_first; auto.
-    + exists true. rewrite cwire_evs_snoc. cbn. rewrite (crstate_wires_first q0 tr Hq0 H). rewrite Hi. reflexivity.
+    + exists true. rewrite cwire_evs_snoc. cbn. rewrite (crstate_wires_first q0 tr Hq0 H). rewrite Hi, andb_false_r. reflexivity.
 Qed.
 
 (* ---------- the invariant ---------- *)
@@ -92,6 +93,11 @@ Definition cinv4 (s : cstate) : Prop :=
   exists inres seen, c02_rstate (c_trace (c_sh s)) = Some (inres, seen) /\
      (inres = true <-> exists t, c_wr (c_sh s) = WHeld t) /\
      (inres = true -> seen = true -> call_nonfirst (c_q (c_sh s))).
+
+(* replayed stored messages exist only while the resend write lock is held *)
+Definition cinv4b (s : cstate) : Prop :=
+  (forall t l n id, cthr s t l -> th_pend l = Some (IReplay n id) -> a_hw (th_a l) = true /\ a_ph (th_a l) = PhRBuilt) /\
+  ((forall r, c_wr (c_sh s) <> WHeld r) -> call_noreplay (c_q (c_sh s))).
 
 Lemma caprim_append_inv4 : forall a a', caprim a SAppend = Some a' ->
   a_q a <> QStale /\ a_q a <> QReplay /\
@@ -187,8 +193,10 @@ Qed.
 Lemma check_shape_nosetout sh o :
   check_shape sh = true -> cop_ok o = true -> cop_conn o = true -> cnosetout_l (fst (fst (cprog_of sh o))) = true.
 Proof.
-  unfold check_shape. rewrite !andb_true_iff. intros [_ [[[[[H1 H2] H3] H4] H5] H6]] Hok Hc.
-  destruct o; cbn in *; auto; discriminate.
+  unfold check_shape. rewrite !andb_true_iff. intros [[_ [[[[[H1 H2] H3] H4] H5] H6]] _] Hok Hc.
+  destruct o; cbn in *; auto; try discriminate.
+  unfold clogon_ok. destruct (centry_ok false false (sh_logon sh) && cnosetout_l (sh_logon sh) && cpok_l (sh_logon sh)) eqn:E; [|reflexivity].
+  rewrite !andb_true_iff in E. apply E.
 Qed.
 
 Lemma cflush_open_blocking g :
@@ -207,13 +215,14 @@ Lemma cexec_owner4 t ch g l st rest g' l' inres seen :
   (a_q (th_a l) = QReplay -> exists q0 i, c_q g = q0 ++ [i] /\ citem_first i = false /\ call_first q0) ->
   ((a_q (th_a l) <> QReplay /\ a_q (th_a l) <> QStale) -> call_first (c_q g)) ->
   c02_rstate (c_trace g) = Some (inres, seen) -> (inres = true -> seen = true -> call_nonfirst (c_q g)) ->
+  (inres = false -> call_noreplay (c_q g)) ->
   cexec t ch g l st rest = Some (g', l') ->
   c_wr g' = c_wr g /\
   (a_q (th_a l') = QReplay -> exists q0 i, c_q g' = q0 ++ [i] /\ citem_first i = false /\ call_first q0) /\
   ((a_q (th_a l') <> QReplay /\ a_q (th_a l') <> QStale) -> call_first (c_q g')) /\
   exists seen', c02_rstate (c_trace g') = Some (inres, seen') /\ (inres = true -> seen' = true -> call_nonfirst (c_q g')).
 Proof.
-  intros L Hpc Hhs L3 Hopen Hhw Hrep Hfirst Hrs Hnf Hex.
+  intros L Hpc Hhs L3 Hopen Hhw Hrep Hfirst Hrs Hnf Hnrp Hex.
   destruct (cclassA st) eqn:HA.
   - (* queue and automaton untouched *)
     destruct (cexec_eff4A _ _ _ _ _ _ _ _ HA Hex) as (E1 & E2 & E3).
@@ -264,7 +273,7 @@ Proof.
         destruct inres.
         -- destruct (crstate_wires_in (c_q g) (c_trace g) seen Hrs (Hnf eq_refl) Hstruct) as [sn' Hsn].
            exists sn'. split; auto. intros _ _ i [].
-        -- destruct (crstate_wires_out (c_q g) (c_trace g) seen Hrs) as [sn' Hsn].
+        -- destruct (crstate_wires_out (c_q g) (c_trace g) seen (Hnrp eq_refl) Hrs) as [sn' Hsn].
            exists sn'. split; auto. intros _ _ i [].
       * (* non-blocking: not while the write lock is held, not with a replay item at the end *)
         assert (Hin : inres = false).
@@ -274,7 +283,8 @@ Proof.
         { destruct Hstruct as [Hf|(q0 & i & Eq & Hi & Hq0)]; auto.
           apply Hfirst. split; auto. intros E. specialize (P3 E). discriminate. }
         destruct Heff as (_ & _ & k & Eq & Et). rewrite Eq, Et. split; [intros _; apply call_first_skipn; auto|].
-        destruct (crstate_wires_out (firstn k (c_q g)) (c_trace g) seen Hrs) as [sn' Hsn].
+        assert (Hnr2 : call_noreplay (firstn k (c_q g))) by (intros i Hi; apply (Hnrp eq_refl); eapply cin_firstn; exact Hi).
+        destruct (crstate_wires_out (firstn k (c_q g)) (c_trace g) seen Hnr2 Hrs) as [sn' Hsn].
         exists sn'. split; auto. intros Hc. discriminate Hc.
     + (* SDropQ *)
       destruct (caprim_dropq_inv _ _ Hap) as (P1 & P2).
@@ -287,9 +297,11 @@ Qed.
 
 (* ---------- whole steps ---------- *)
 Lemma cstep_inv4 sh s t ch s' :
-  check_shape sh = true -> cinv1 s -> cinv3 s -> cinv4 s -> cstep sh s t ch = Some s' -> cinv4 s'.
+  check_shape sh = true -> cinv1 s -> cinv3 s -> cinv4b s -> cinv4 s -> cstep sh s t ch = Some s' -> cinv4 s'.
 Proof.
-  intros Hsh I1 (_ & Ls3 & _) (Hopen & Ls4 & Hfirst & inres & seen & Hrs & Hin & Hnf) Hst.
+  intros Hsh I1 (_ & Ls3 & _) (_ & Hnrq) (Hopen & Ls4 & Hfirst & inres & seen & Hrs & Hin & Hnf) Hst.
+  assert (Hnrp : inres = false -> call_noreplay (c_q (c_sh s))).
+  { intros Hi. apply Hnrq. intros r Hr. assert (inres = true) by (apply Hin; eauto). congruence. }
   pose proof I1 as (G & Ls & Own). unfold cstep in Hst.
   destruct (nth_error (c_ths s) t) as [l|] eqn:Hl; [|discriminate].
   pose proof (Ls t l Hl) as L. pose proof (Ls3 t l Hl) as L3. pose proof (Ls4 t l Hl) as L4.
@@ -326,7 +338,7 @@ Proof.
       { intros Hp. apply Hfirst. intros u lu Hu. destruct (Nat.eq_dec t u) as [->|Hne].
         - unfold cthr in Hu. rewrite Hl in Hu. inversion Hu; subst. exact Hp.
         - rewrite (Hoth u lu (not_eq_sym Hne) Hu). split; discriminate. }
-      destruct (cexec_owner4 _ _ _ _ _ _ _ _ inres seen L Hpc Hhs L3 Hopen Hw (l4_replay _ _ L4) Hf Hrs Hnf Hex)
+      destruct (cexec_owner4 _ _ _ _ _ _ _ _ inres seen L Hpc Hhs L3 Hopen Hw (l4_replay _ _ L4) Hf Hrs Hnf Hnrp Hex)
         as (Ewr & Hrep' & Hf' & seen' & Hrs' & Hnf').
       split; [cbn; rewrite Hop'; exact Hopen|split; [|split]]; cbn [c_sh c_ths].
       * intros u lu Hu. unfold cthr in Hu. cbn in Hu. destruct (Nat.eq_dec t u) as [->|Hne].
@@ -365,4 +377,111 @@ Proof.
       * discriminate.
   - intros _ i [].
   - exists false, false. cbn. split; auto. split; [|discriminate]. split; [discriminate|intros [r Hr]; discriminate].
+Qed.
+
+(* ---------- layer 4b: replayed stored messages only under the resend write lock ---------- *)
+Lemma caprim_rbuilt_stays : forall a a' st, caprim a st = Some a' -> a_ph a = PhRBuilt -> st <> SAppend ->
+  a_ph a' = PhRBuilt /\ a_hw a' = a_hw a.
+Proof.
+  intros a a' st. destruct a as [hs hr hw ph q kp mr nr]. cbn. intros H -> Hne.
+  destruct st; try congruence; try (destruct m); cbn in H; destruct hs, hr, hw; cbn in H; try discriminate H;
+    repeat match type of H with context [if ?b then _ else _] => destruct b; cbn in H; try discriminate H end;
+    inversion H; subst; auto.
+Qed.
+Lemma caprim_replaybuild_hw : forall a a', caprim a SReplayBuild = Some a' -> a_hw a' = true /\ a_ph a' = PhRBuilt.
+Proof. cap_brute. Qed.
+
+Lemma cexec_pend4 t ch g l st rest g' l' :
+  cexec t ch g l st rest = Some (g', l') ->
+  match st with
+  | SReplayBuild => th_pend l' = Some (IReplay (th_sent l) (th_sentid l))
+  | SGapBuild b e => th_pend l' = Some (IGap (ceval_e l b) (ceval_e l e))
+  | SBuild => th_pend l' = Some (IFirst (th_seq l) (c_nextid g))
+  | SAppend => th_pend l' = None
+  | _ => th_pend l' = th_pend l
+  end.
+Proof. destruct st; cexec_cases t g l; intros H; inversion H; subst; cbn; auto. Qed.
+
+Lemma cexec_wr4 t ch g l st rest g' l' :
+  cexec t ch g l st rest = Some (g', l') ->
+  c_wr g' = c_wr g \/ st = SAcq MResW \/ (st = SRel MResW /\ c_wr g' = WNone).
+Proof.
+  destruct st; cexec_cases t g l; intros H; inversion H; subst; cbn; auto.
+  left. apply cflush_fields.
+Qed.
+
+Lemma cexec_q4 t ch g l st rest g' l' :
+  cexec t ch g l st rest = Some (g', l') ->
+  forall i, In i (c_q g') -> In i (c_q g) \/ (st = SAppend /\ th_pend l = Some i).
+Proof.
+  intros Hex. pose proof (cexec_eff3 _ _ _ _ _ _ _ _ Hex) as H3.
+  destruct st; try (destruct H3 as (_ & Eq & _); rewrite Eq; auto; fail).
+  - destruct H3 as (_ & _ & _ & Eq). rewrite Eq. destruct (th_pend l) as [i0|]; auto.
+    intros i Hi. apply in_app_or in Hi. destruct Hi as [Hi|[<-|[]]]; auto.
+  - destruct H3 as (_ & _ & k & Eq & _). rewrite Eq. intros i Hi. left. eapply cin_skipn; eauto.
+  - destruct H3 as (_ & Eq & _). rewrite Eq. intros i [].
+Qed.
+
+Lemma cstep_inv4b sh s t ch s' :
+  check_shape sh = true -> cinv1 s -> cinv4 s -> cinv4b s -> cstep sh s t ch = Some s' -> cinv4b s'.
+Proof.
+  intros Hsh I1 I4 (Hp & Hq) Hst.
+  pose proof I1 as (G & Ls & Own). unfold cstep in Hst.
+  destruct (nth_error (c_ths s) t) as [l|] eqn:Hl; [|discriminate].
+  pose proof (Ls t l Hl) as L.
+  destruct (th_pc l) as [|st rest] eqn:Hpc.
+  - destruct (th_ops l) as [|o os] eqn:Hops; [discriminate|]. inversion Hst; subst s'; clear Hst. split; cbn; [|exact Hq].
+    intros u lu n id Hu Hpe. unfold cthr in Hu. cbn in Hu. destruct (Nat.eq_dec t u) as [->|Hne].
+    + rewrite (cupd_nth_eq _ _ _ _ Hl) in Hu. inversion Hu; subst lu. exfalso. revert Hpe. unfold cload.
+      destruct (cprog_of sh o) as [[pc m] [mr nr]].
+      destruct (match o with OResend b e rejs => (b, e, rejs) | OSetOut _ room => (Z.of_nat room, 0, []) | _ => (0, 0, []) end) as [[b e] rejs].
+      cbn. discriminate.
+    + rewrite (cupd_nth_ne _ _ _ _ Hne) in Hu. eapply Hp; eauto.
+  - destruct (cexec t ch (c_sh s) l st rest) as [[g' l']|] eqn:Hex; [|discriminate]. inversion Hst; subst s'; clear Hst.
+    pose proof (cexec_pend4 _ _ _ _ _ _ _ _ Hex) as Hpend.
+    pose proof (cexec_ghost _ _ _ _ _ _ _ _ L Hpc Hex) as Hgh.
+    split; cbn.
+    + intros u lu n id Hu Hpe. unfold cthr in Hu. cbn in Hu. destruct (Nat.eq_dec t u) as [->|Hne];
+        [|rewrite (cupd_nth_ne _ _ _ _ Hne) in Hu; eapply Hp; eauto].
+      rewrite (cupd_nth_eq _ _ _ _ Hl) in Hu. inversion Hu; subst lu.
+      destruct Hgh as [(Hat & a' & Hap & [Ha|[Hst Hll]])|(Hat & Hph & _ & _ & Hhw & Hpe' & _)].
+      * destruct st; rewrite Hpend in Hpe; try discriminate Hpe.
+        all: try (rewrite Ha; apply (caprim_replaybuild_hw _ _ Hap)).
+        all: destruct (Hp u l n id Hl Hpe) as [P1 P2];
+          match type of Hap with caprim _ ?st0 = _ =>
+            assert (Hne' : st0 <> SAppend) by discriminate;
+            destruct (caprim_rbuilt_stays _ _ _ Hap P2 Hne') as [Q1 Q2] end;
+          rewrite Ha, Q1, Q2; auto.
+      * subst l'. eapply Hp; eauto.
+      * rewrite Hpe' in Hpe. destruct (Hp u l n id Hl Hpe) as [P1 P2]. rewrite Hph, Hhw. auto.
+    + intros Hnow i Hi. destruct (cexec_q4 _ _ _ _ _ _ _ _ Hex i Hi) as [Hin|[Hst Hpe]].
+      * destruct (c_wr (c_sh s)) as [|w|r] eqn:Ewr; [apply Hq; [intros r; discriminate|exact Hin]|apply Hq; [intros r; discriminate|exact Hin]|].
+        (* the write lock was held and is not any more: this step released it; the queue has only first-time items *)
+        destruct (cexec_wr4 _ _ _ _ _ _ _ _ Hex) as [E|[E|[E Ew]]].
+        -- exfalso. apply (Hnow r). congruence.
+        -- exfalso. subst st. revert Hex. cbn. rewrite Ewr. discriminate.
+        -- subst st. destruct I4 as (_ & _ & Hfirst & _).
+           destruct Hgh as [(_ & a' & Hap & _)|(Hx & _)]; [|discriminate Hx].
+           destruct (caprim_lock_bits _ MResW false _ Hap) as (B0 & _ & B2 & _).
+           assert (Hths : a_hs (th_a l) = false).
+           { cbn in Hap. destruct (a_hs (th_a l)); [|reflexivity]. rewrite B0 in Hap. cbn in Hap. discriminate Hap. }
+           assert (Hall : call_first (c_q (c_sh s))).
+           { apply Hfirst. intros u lu Hu. destruct (a_hs (th_a lu)) eqn:E.
+             - destruct (cowner_is_writer s u lu r I1 Hu E Ewr) as [-> _].
+               pose proof (proj1 (l1_hw _ _ _ L) B0) as Hw. rewrite Ewr in Hw. inversion Hw; subst.
+               unfold cthr in Hu. rewrite Hl in Hu. inversion Hu; subst. congruence.
+             - destruct (cnohs_abs _ (l1_wf _ _ _ (Ls u lu Hu)) E) as [_ ->]. split; discriminate. }
+           specialize (Hall i Hin). destruct i; cbn in *; auto; discriminate.
+      * subst st. destruct i as [n id|n id|b e]; auto. exfalso.
+        destruct (Hp t l n id Hl Hpe) as [P1 _]. apply (l1_hw _ _ _ L) in P1.
+        destruct (cexec_wr4 _ _ _ _ _ _ _ _ Hex) as [E|[E|[E _]]]; try discriminate E.
+        apply (Hnow t). congruence.
+Qed.
+
+Lemma cinit_inv4b persist logged open room sess apps : cinv4b (cinit persist logged open room sess apps).
+Proof.
+  split; cbn; [|intros _ i []].
+  intros t l n id Hl. unfold cthr in Hl. cbn in Hl. destruct t as [|t]; cbn in Hl.
+  - inversion Hl; subst. cbn. discriminate.
+  - rewrite nth_error_map in Hl. destruct (nth_error apps t); [|discriminate]. inversion Hl; subst. cbn. discriminate.
 Qed.
